@@ -387,7 +387,7 @@ def run(ctx):
             doc = perturb_envelope(rng, doc)
             kinds.append('envelope')
         text = doc.text()
-        case = {'map': e['file'], 'gen': {'entry': e, 'seed': seed, 'kw': kw}, 'faults': kinds, 'charset': doc.charset, 'text': text if len(text) < 8000 else None, 'k': ['c05', ctx.shard, k]}
+        case = {'map': e['file'], 'gen': {'entry': e, 'seed': seed, 'kw': kw}, 'faults': kinds, 'charset': doc.charset, 'text': text if len(text) < 150000 else None, 'k': ['c05', ctx.shard, k]}
         if rng.random() < 0.25:
             lines = text.split('~\n')
             for _ in range(rng.randint(1, 2)):
@@ -400,11 +400,11 @@ def run(ctx):
             text = '~\n'.join(lines)
             kinds.append('reader-level')
             case['faults'] = kinds
-            case['text'] = text if len(text) < 8000 else None
+            case['text'] = text if len(text) < 150000 else None
         if rng.random() < 0.18:
             text, names = mutate.mutate(rng, text)
             case['mutations'] = names
-            case['text'] = text if len(text) < 8000 else None
+            case['text'] = text if len(text) < 150000 else None
             judge(ctx, text, case, False, sigs, e['file'])
             ctx.count('docs:B')
         else:
